@@ -214,6 +214,22 @@ def cases(rng, tier):
         out.append({'kind': 'mps', 'qd0': qd0, 'qd1': qd1, 'qD0': qD0, 'qD2': qD2, 'cplx': cplx,
                     'T': [BC.mat_to_json(T[k]) for k in range(d0 * d1)], 'distr': rng.choice(['left', 'right', 'sqrt']),
                     'tol': _rand_tol(rng), 'tag': 'mps'})
+    # ---- magnitude regimes: power-of-two multiples (exact in binary64) of a sample of the cases above; the truncation rule is relative,
+    #      so the retained set must not depend on the common factor
+    base = [c for c in out if c.get('tag') != 'zero']
+    for c in rng.sample(base, min(len(base), {'quick': 70, 'thorough': 400, 'search': 60}[tier])):
+        k = rng.choice([-60, -40, -30, -27, -24, 30, 40])
+        f = 2.0 ** k
+        c2 = dict(c)
+        c2['tag'] = c['tag'] + '/x2^%d' % k
+        if c['kind'] == 'ret':
+            c2['s'] = [x * f for x in c['s']]
+        elif c['kind'] == 'svd':
+            c2['A'] = [[[re * f, im * f] for re, im in row] for row in c['A']]
+            c2['dtype_int'] = bool(c['dtype_int'] and k > 0)
+        else:
+            c2['T'] = [[[[re * f, im * f] for re, im in row] for row in m] for m in c['T']]
+        out.append(c2)
     # ---- malformed stream
     n_bad = {'quick': 18, 'thorough': 48, 'search': 0}[tier]
     for k in range(n_bad):
